@@ -151,31 +151,29 @@ theorem enc_nodes {nameOf : J → String} {ofName : String → Option J} {A : Ar
     obtain ⟨n, hA, hwo⟩ := wireOf_item F hof o i hD hphi hk
     exact ⟨n, by simpa using hA, hwo⟩
 
-/-- **the encoder re-writes the accepted witness values**: the witness bit strings the encoder
-collects along its walk are those the witness reader returned, in the same order -/
-theorem enc_wits {nameOf : J → String} {A : Array (WNode J)}
+/-- **the encoder collects the witness values in index order**: the witness bit strings the encoder
+collects along its walk are those of the witness nodes in increasing index -/
+theorem enc_wits_gen {nameOf : J → String} {A : Array (WNode J)}
     {plan : Plan} {an : Array Annot} (F : DecFacts nameOf A plan an)
     (hw : WellIdx (shapes A)) (hne : 0 < A.size)
     (hroot : hiddenAt A (A.size - 1) = none) (hc : canonicalOk A = true)
-    (ws : List (Nat × List Bool)) (hws : ws.map (·.1) = wIdx plan.toList 0) :
+    (W : Nat → Option (List Bool)) :
     (walk (encChildren plan true) (encKey plan an true) (2 * plan.size + 2)
       (2 * (plan.size - 1)) ⟨#[], [], 0⟩).1.outs.toList.filterMap (fun o =>
         if o.node % 2 = 0 then
           match plan[o.node / 2]? with
-          | some Node.witness => (ws.find? (·.1 = o.node / 2)).map (·.2)
+          | some Node.witness => W (o.node / 2)
           | _ => none
-        else none) = ws.map (·.2) := by
+        else none) = (wIdx plan.toList 0).filterMap W := by
   obtain ⟨hsz, hit⟩ := enc_walk_items F hw hne hroot hc
   rw [ListAux.filterMap_eq_range _
     (fun j => match plan.toList[j - 0]? with
-      | some Node.witness => (ws.find? (·.1 = j)).map (·.2) | _ => none) _ 0]
+      | some Node.witness => W j | _ => none) _ 0]
   · have hlen : (walk (encChildren plan true) (encKey plan an true) (2 * plan.size + 2)
         (2 * (plan.size - 1)) ⟨#[], [], 0⟩).1.outs.toList.length = plan.toList.length := by
       simp only [Array.length_toList]; rw [hsz, F.size]
     rw [hlen]
-    refine (filterMap_wIdx (fun j => (ws.find? (·.1 = j)).map (·.2)) plan.toList 0).trans ?_
-    rw [← hws]
-    exact lookup_self ws (by rw [hws]; exact wIdx_nodup _ _)
+    exact filterMap_wIdx W plan.toList 0
   · intro i o ho
     obtain ⟨hD, hphi, _, _⟩ := hit i o ho
     simp only [Nat.zero_add, Nat.sub_zero, Array.getElem?_toList]
@@ -194,6 +192,42 @@ theorem enc_wits {nameOf : J → String} {A : Array (WNode J)}
       simp only at spec
       rw [if_neg (by omega), hp, spec]
 
+/-- **the encoder re-writes the accepted witness values**: the witness bit strings the encoder
+collects along its walk are those the witness reader returned, in the same order -/
+theorem enc_wits {nameOf : J → String} {A : Array (WNode J)}
+    {plan : Plan} {an : Array Annot} (F : DecFacts nameOf A plan an)
+    (hw : WellIdx (shapes A)) (hne : 0 < A.size)
+    (hroot : hiddenAt A (A.size - 1) = none) (hc : canonicalOk A = true)
+    (ws : List (Nat × List Bool)) (hws : ws.map (·.1) = wIdx plan.toList 0) :
+    (walk (encChildren plan true) (encKey plan an true) (2 * plan.size + 2)
+      (2 * (plan.size - 1)) ⟨#[], [], 0⟩).1.outs.toList.filterMap (fun o =>
+        if o.node % 2 = 0 then
+          match plan[o.node / 2]? with
+          | some Node.witness => (ws.find? (·.1 = o.node / 2)).map (·.2)
+          | _ => none
+        else none) = ws.map (·.2) := by
+  refine (enc_wits_gen F hw hne hroot hc (fun j => (ws.find? (·.1 = j)).map (·.2))).trans ?_
+  rw [← hws]
+  exact lookup_self ws (by rw [hws]; exact wIdx_nodup _ _)
+
+/-- the encoder on a converted plan, any witness assignment -/
+theorem encode_converted {nameOf : J → String} {ofName : String → Option J} (jc : JetCode J)
+    {A : Array (WNode J)} {plan : Plan} {an : Array Annot} (F : DecFacts nameOf A plan an)
+    (hof : ∀ j, ofName (nameOf j) = some j) (hw : WellIdx (shapes A)) (hne : 0 < A.size)
+    (hroot : hiddenAt A (A.size - 1) = none) (hc : canonicalOk A = true)
+    (W : Nat → Option (List Bool)) :
+    encode jc ofName plan an true W =
+      some (padToByte (encProgram jc A.toList), padToByte ((wIdx plan.toList 0).filterMap W).flatten) := by
+  have h1 := enc_nodes (ofName := ofName) F hof hw hne hroot hc
+  have h2 := enc_wits_gen F hw hne hroot hc W
+  unfold encode
+  generalize walk (encChildren plan true) (encKey plan an true) (2 * plan.size + 2)
+    (2 * (plan.size - 1)) ⟨#[], [], 0⟩ = w at h1 h2
+  obtain ⟨st, x⟩ := w
+  simp only at h1 h2 ⊢
+  rw [h1]
+  simp only [Option.bind_eq_bind, Option.bind_some, Option.pure_def, Option.some.injEq, Prod.mk.injEq, true_and]
+  exact congrArg (fun l => padToByte l.flatten) h2
 
 /-- **re-encoding a decoded program**: with the facts `DecFacts` that an accepting run of the decoder
 establishes about the wire list `A`, the converted plan and its annotations, and with the witness
